@@ -2,11 +2,42 @@
 // This file is part of peginator
 // Licensed under the MIT license. See LICENSE file in the project root for details.
 
-use anyhow::Result;
+use std::cell::Cell;
+
+use anyhow::{bail, Result};
 use proc_macro2::TokenStream;
 
 use super::common::{Codegen, CodegenSettings, FieldDescriptor};
 use crate::grammar::{Choice, Grammar, Grammar_rules, IncludeRule};
+
+thread_local! {
+    /// How many includes are being expanded inside each other right now.
+    static INCLUDE_DEPTH: Cell<usize> = const { Cell::new(0) };
+}
+
+/// Guards the expansion of one include; dropping it ends the expansion.
+struct IncludeDepthGuard;
+
+impl IncludeDepthGuard {
+    /// Without a cycle, includes cannot nest deeper than there are rules.
+    fn enter(include: &IncludeRule, grammar: &Grammar) -> Result<Self> {
+        let depth = INCLUDE_DEPTH.with(|d| d.get());
+        if depth > grammar.rules.len() {
+            bail!(
+                "Include cycle detected: rule {} (transitively) includes itself",
+                include.rule
+            );
+        }
+        INCLUDE_DEPTH.with(|d| d.set(depth + 1));
+        Ok(Self)
+    }
+}
+
+impl Drop for IncludeDepthGuard {
+    fn drop(&mut self) {
+        INCLUDE_DEPTH.with(|d| d.set(d.get() - 1));
+    }
+}
 
 impl Codegen for IncludeRule {
     fn generate_code_spec(
@@ -15,11 +46,13 @@ impl Codegen for IncludeRule {
         grammar: &Grammar,
         settings: &CodegenSettings,
     ) -> Result<TokenStream> {
+        let _guard = IncludeDepthGuard::enter(self, grammar)?;
         self.included_rule_definition(grammar)?
             .generate_code_spec(rule_fields, grammar, settings)
     }
 
     fn get_fields<'a>(&'a self, grammar: &'a Grammar) -> Result<Vec<FieldDescriptor<'a>>> {
+        let _guard = IncludeDepthGuard::enter(self, grammar)?;
         self.included_rule_definition(grammar)?.get_fields(grammar)
     }
 }
